@@ -16,6 +16,7 @@ from .interp import (
     BoundModel,
     ClassRef,
     EnumMember,
+    ExcValue,
     ExtRef,
     FuncRef,
     Lambda,
@@ -1123,7 +1124,7 @@ class Model:
             return Opaque('str(...)')
         if name in ('ValueError', 'TypeError', 'KeyError', 'RuntimeError', 'NotImplementedError',
                     'Exception', 'IndexError', 'AttributeError'):
-            return Opaque(f'exception {name}')
+            return ExcValue(name, tuple(args))
         if name == 'sorted':
             seq = interp.iterate(args[0], node)
             key = kwargs.get('key')
